@@ -6,6 +6,7 @@ import (
 	"sort"
 	"strings"
 	"sync"
+	"sync/atomic"
 	"testing"
 	"testing/synctest"
 
@@ -133,6 +134,11 @@ func (s *Sched) park(label string, mu interface{}, kind string) {
 	g := gid()
 	if g == s.rootGID {
 		return // set-up code on the bubble's root goroutine never parks
+	}
+	if strayCount.Load() != 0 {
+		if _, stray := strayGIDs.Load(g); stray {
+			return // left over from an earlier trial that ran outside a bubble: not this scheduler's business
+		}
 	}
 	s.mu.Lock()
 	if s.aborting {
@@ -351,16 +357,42 @@ func inBubble(t *T, maxSteps int, body func(s *Sched)) {
 	})
 }
 
+// Library goroutines that were started while no scheduler was installed (an engine using a file system on the
+// plain runtime, outside a bubble) may outlive their trial: a tar reader that failed returns while its background
+// writers are still on their way. Such a goroutine must never be taken for a task of a later trial's scheduler,
+// draw from a later trial's choice stream or get one of its spawn tokens: it is remembered by goroutine id and
+// every hook lets it pass.
+var (
+	strayGIDs  sync.Map // goroutine id -> struct{}
+	strayCount atomic.Int64
+)
+
+func isStray() bool {
+	if strayCount.Load() == 0 {
+		return false
+	}
+	_, ok := strayGIDs.Load(gid())
+	return ok
+}
+
+func markStray() {
+	if _, loaded := strayGIDs.LoadOrStore(gid(), struct{}{}); !loaded {
+		strayCount.Add(1)
+	}
+}
+
 func init() {
 	verifhook.SpawnHook = func(label string) uint64 {
-		if s := cur.sched; s != nil {
+		if s := cur.sched; s != nil && !isStray() {
 			return s.spawnToken(label)
 		}
 		return 0
 	}
 	verifhook.StartHook = func(label string, tok uint64) {
-		if s := cur.sched; s != nil {
+		if s := cur.sched; s != nil && tok != 0 {
 			s.start(label, tok)
+			return
 		}
+		markStray()
 	}
 }
